@@ -1,6 +1,7 @@
 // Corpus for the normalisation family (C08, C09, C12).
 #pragma once
 #include "corpus.h"
+#include "../gen.h"
 static inline std::vector<Str> norm_tokens() { return { "", ".", "..", "a", "c:d", "1:b", ":", "%2e", "%2E%2E", "A", "%41", "%7e" }; }
 
 // size 0: small, 1: quick, 2: thorough
@@ -25,5 +26,12 @@ static inline std::vector<Str> norm_corpus(int size) {
     std::vector<Str> rl = path_token_paths(norm_tokens(), n, 0), ab = path_token_paths(norm_tokens(), n, 1);
     for (auto &p : rl) { add(p); add("s:" + p); add(p + "?q#f"); }
     for (auto &p : ab) { add(p); add("s:" + p); add("//h" + p); add("S://H" + p + "#f"); }
+    // (c) sequences of percent-encoding / case tokens inside every component that normalisation touches: every adjacency of
+    //     normal-form triplets, lower-case-hex triplets, triplets of unreserved characters and plain letters
+    std::vector<Str> tk = { "a", "A", "%2F", "%2f", "%41", "%7e", "%3A", "-" }; if (size >= 1) { tk.push_back("%7E"); tk.push_back("%4a"); }
+    token_seqs(tk, size == 0 ? 2 : size == 1 ? 3 : 4, [&](const std::vector<int> &q) {
+        if (q.empty()) return; Str t; for (int i : q) t += tk[i];
+        add("//" + t + "@h"); add("//" + t); add("/" + t); add("x/" + t + "/y"); add("?" + t); add("#" + t); add("S://u@" + t + ":1/p");
+    });
     return v;
 }
